@@ -395,6 +395,13 @@ def documented_ctor_rejections_unit(ctx, u):
         ("Vmap(in_axes matching no array leaf)", lambda: fb.Vmap(fb.Exp(()), in_axes=0), False),
         ("Vmap(in_axes containing an unwrappable)", lambda: fb.Vmap(aff0(), in_axes=fw.NonTrainable(0)), False),
         ("Vmap(in_axes of an unsupported type)", lambda: fb.Vmap(aff0(), in_axes="0"), False),
+        # children given as whole wrapped bijections (Chain documents AbstractUnwrappable entries): the shape / condition-shape checks apply
+        # to what they unwrap to (seeded change C13g skipped entries without a .shape attribute)
+        ("Chain([shape (3,), NonTrainable(shape (2,))])", lambda: fb.Chain([fb.Affine(jnp.zeros(3), jnp.ones(3)), fw.NonTrainable(aff2())]), False),
+        ("Chain([NonTrainable(shape ()), shape (3,)])", lambda: fb.Chain([fw.NonTrainable(aff0()), fb.Affine(jnp.zeros(3), jnp.ones(3))]), False),
+        ("Chain([shape (3,), NonTrainable(shape (1, 3))])", lambda: fb.Chain([fb.Affine(jnp.zeros(3), jnp.ones(3)), fw.NonTrainable(fb.Affine(jnp.zeros((1, 3)), jnp.ones((1, 3))))]), False),
+        ("Chain([shape (2,), NonTrainable(shape (2,))])", lambda: fb.Chain([aff2(), fw.NonTrainable(aff2())]), True),
+        ("Chain([cond (2,), NonTrainable(cond (3,))])", lambda: fb.Chain([fb.AdditiveCondition(lambda c: c.sum(), (), (2,)), fw.NonTrainable(fb.AdditiveCondition(lambda c: c.sum(), (), (3,)))]), False),
     ]
     for name, mk, ok_expected in cases:
         u.count(f"doc-ctor|{name}", nontrivial=not ok_expected, tag="documented-ctor-rejections")
@@ -511,6 +518,13 @@ def run(ctx):
 def replay(ctx, rep):
     c08.fj()
     c = rep["case"]
+    if c.get("unit") in ("documented-ctor-rejections", "transformed-ctor"):   # oracle-only constructor units: re-run and look for the signature
+        n0 = len(ctx.violations)
+        (documented_ctor_rejections_unit if c["unit"] == "documented-ctor-rejections" else transformed_ctor_unit)(ctx, ctx.unit("ctor-unit", ""))
+        hits = [v for v in ctx.violations[n0:] if v["sig"] == rep.get("sig") and (c.get("call") is None or v["what"].startswith(c["call"]))]
+        for v in hits:
+            print("still failing:", v["what"][:300])
+        return not hits
     if "spec" in c:  # constructor-unit cases share C08's format
         return c08.replay(ctx, rep)
     if "cls" in c and "shape" in c and "x_shape" not in c and c["cls"] in factories():
